@@ -1,8 +1,462 @@
-//! engine `dict` (stub — to be written)
+//! engine `dict` (C10): custom (prefix) dictionary compression round-trips with the same dictionary.
+//!
+//! Search stage (property oracle on the real code alone): for every case of the grid
+//!   lgwin {10..14,16,18 dense; 20,22,24 sparse} x quality 0..11 x magic_number x
+//!   dictionary length d in {0,1,2,3, mid, w-17, w-16, w-15, w+5, 2w+3} (w = 2^lgwin) x input kind x API
+//! the stream produced with the dictionary must decode, with brotli-decompressor given the SAME dictionary, to
+//! exactly the input (`crate::dec::decode_dict`).  Input kinds: `tail` (starts with the dictionary's tail, so the
+//! first copy crosses the dictionary end; then text, dictionary substrings, noise), `period` (continues a short
+//! period of the dictionary tail: overlapping copy across the dictionary end), `text` (static-dictionary words),
+//! `tiny` (0..3 bytes), `long` (longer than the encoder ring buffer).  APIs: streaming
+//! (`set_custom_dictionary` + `compress_stream`, random chunking) and one-shot `BrotliCompressCustomIoCustomDict`.
+//!
+//! Correspondence stage: `dict book <lgwin> <quality> <size> <seed>` — the book-keeping fields of the encoder right
+//! after `set_custom_dictionary(size, gen_dict(seed, size))` (positions, prev bytes, catable/appendable/
+//! use_dictionary, sanitised lgwin/lgblock, ring-buffer geometry, the last <= 64 ring bytes below pos, digest of the
+//! ring content at positions [0,pos), digest of the whole ring allocation, recoder position) against
+//! `BV.Dict.setCustomDictionary`; includes unsanitised lgwin / quality values.
+//!   `dict dec <wbits> <size> <seed> <ringbits> <P...>` is answered by the model only (decoder hand model) and is
+//!   not emitted here: the decoder side is tied by the differential decode of the search stage.
+//!
+//! non-trivial case = d >= 1, the encoder returned a stream and the decoder oracle was evaluated on it.
+//! Corpus: /verif/corpus/dict/*.txt, one case per file: `lgwin q d seed magic kind api inputseed` (decimal).
 use crate::util::*;
+use crate::prng::Rng;
+use crate::dec::{decode_dict, DResult};
+use alloc_stdlib::StandardAlloc;
+use brotli::enc::encode::{BrotliEncoderOperation, BrotliEncoderStateStruct};
+use brotli::enc::BrotliEncoderParams;
+use brotli::enc::interface;
+use brotli::enc::StandardAlloc as EncAlloc;
+use brotli::InputReferenceMut;
+use brotli::interface::InputPair;
+use std::panic::{catch_unwind, AssertUnwindSafe};
+
+/// book-keeping fields of the encoder right after `set_custom_dictionary`
+#[derive(Clone, Debug, Default, PartialEq)]
+pub struct Book {
+    pub input_pos: u64,
+    pub last_flush_pos: u64,
+    pub last_processed_pos: u64,
+    pub prev_byte: u8,
+    pub prev_byte2: u8,
+    pub catable: bool,
+    pub appendable: bool,
+    pub use_dictionary: bool,
+    pub lgwin: i32,
+    pub lgblock: i32,
+    pub quality: i32,
+    pub rb_pos: u32,
+    pub rb_mask: u32,
+    pub rb_cur_size: u32,
+    pub data_len: usize,
+    /// the last min(64, pos) bytes of the ring buffer below `pos` (content at positions [pos-k, pos))
+    pub ring_tail: Vec<u8>,
+    /// fnv of ring content at positions [0, pos)
+    pub ring_fnv: u64,
+    /// fnv of the whole allocation `data_mo`
+    pub data_fnv: u64,
+    pub recoder_pos: usize,
+}
+impl Book {
+    pub fn line(&self) -> String {
+        format!("ok ip={} lf={} lp={} pb={} pb2={} cat={} app={} ud={} lgwin={} lgblock={} q={} pos={} mask={} cur={} dlen={} tail={} rfnv={:016x} dfnv={:016x} rec={}",
+            self.input_pos, self.last_flush_pos, self.last_processed_pos, self.prev_byte, self.prev_byte2,
+            self.catable as u8, self.appendable as u8, self.use_dictionary as u8, self.lgwin, self.lgblock, self.quality,
+            self.rb_pos, self.rb_mask, self.rb_cur_size, self.data_len, hex(&self.ring_tail), self.ring_fnv, self.data_fnv, self.recoder_pos)
+    }
+}
+
+pub fn base_params(q: i32, lgwin: i32) -> BrotliEncoderParams {
+    let mut p = BrotliEncoderParams::default();
+    p.quality = q;
+    p.lgwin = lgwin;
+    p
+}
+
+/// the generated dictionary: byte i = (i*7 + (i>>3)*13 + seed) % 251   (mirrored by `BV.Dict.dictGen`)
+pub fn gen_dict(seed: u64, n: usize) -> Vec<u8> {
+    (0..n as u64).map(|i| ((i * 7 + (i >> 3) * 13 + seed) % 251) as u8).collect()
+}
+
+pub const TEXT: &[u8] = b"The quick brown fox jumps over the lazy dog. Compression of information and international development is \
+something that should be considered through different government programs; however, the following children, \
+education and understanding are important because available community services provide everything necessary. \
+Although performance, experience and knowledge increase, production companies sometimes require additional management. ";
+
+/// Streaming encode through the encoder state API (`set_custom_dictionary` then `compress_stream`
+/// with input cut into pieces drawn from `chunks` (cyclic) and an `out_chunk`-byte output window).
+/// `call_empty`: call `set_custom_dictionary(0, [])` also for an empty dictionary.
+/// Returns (stream, book-keeping after set_custom_dictionary).
+pub fn encode_stream_x<Cb>(input: &[u8], dict: &[u8], call_empty: bool, params: &BrotliEncoderParams, chunks: &[usize], out_chunk: usize, cb: &mut Cb) -> Result<(Vec<u8>, Book), String>
+where Cb: FnMut(&mut interface::PredictionModeContextMap<InputReferenceMut>, &mut [interface::StaticCommand], InputPair, &mut EncAlloc) {
+    let r = catch_unwind(AssertUnwindSafe(|| {
+        let mut s = BrotliEncoderStateStruct::new(EncAlloc::default());
+        s.params = params.clone();
+        if !dict.is_empty() || call_empty {
+            s.set_custom_dictionary(dict.len(), dict);
+        }
+        let book = book_of(&s);
+        let mut out: Vec<u8> = Vec::new();
+        let mut obuf = vec![0u8; out_chunk.max(1)];
+        let mut pos = 0usize;
+        let mut steps = 0usize;
+        let min_chunk = chunks.iter().cloned().min().unwrap_or(1).max(1);
+        let limit = 1024 + 16 * (input.len() / min_chunk + (2 * input.len() + 1024) / out_chunk.max(1));
+        let mut ci = 0usize;
+        let mut n = chunks[0].max(1).min(input.len());
+        loop {
+            steps += 1;
+            if steps > limit { brotli::enc::encode::BrotliEncoderDestroyInstance(&mut s); return Err("livelock".to_string()); }
+            let op = if n == 0 { BrotliEncoderOperation::BROTLI_OPERATION_FINISH } else { BrotliEncoderOperation::BROTLI_OPERATION_PROCESS };
+            let mut avail_in = n;
+            let mut in_off = 0usize;
+            let mut avail_out = obuf.len();
+            let mut out_off = 0usize;
+            let mut total = None;
+            let ok = s.compress_stream(op, &mut avail_in, &input[pos..pos + n], &mut in_off, &mut avail_out, &mut obuf, &mut out_off, &mut total, cb);
+            pos += in_off;
+            n -= in_off;
+            out.extend_from_slice(&obuf[..out_off]);
+            if !ok { brotli::enc::encode::BrotliEncoderDestroyInstance(&mut s); return Err("compress_stream returned false".to_string()); }
+            if s.is_finished() { break; }
+            if n == 0 && pos < input.len() { ci += 1; n = chunks[ci % chunks.len()].max(1).min(input.len() - pos); }
+        }
+        brotli::enc::encode::BrotliEncoderDestroyInstance(&mut s);
+        Ok((out, book))
+    }));
+    match r { Ok(x) => x, Err(e) => Err(format!("panic: {}", panic_msg(&e))) }
+}
+pub fn encode_stream<Cb>(input: &[u8], dict: &[u8], params: &BrotliEncoderParams, chunk: usize, out_chunk: usize, cb: &mut Cb) -> Result<(Vec<u8>, Book), String>
+where Cb: FnMut(&mut interface::PredictionModeContextMap<InputReferenceMut>, &mut [interface::StaticCommand], InputPair, &mut EncAlloc) {
+    encode_stream_x(input, dict, false, params, &[chunk], out_chunk, cb)
+}
+
+/// one-shot API of the property text
+pub fn encode_oneshot<Cb>(input: &[u8], dict: &[u8], params: &BrotliEncoderParams, ibuf: usize, obuf: usize, cb: &mut Cb) -> Result<Vec<u8>, String>
+where Cb: FnMut(&mut interface::PredictionModeContextMap<InputReferenceMut>, &mut [interface::StaticCommand], InputPair, &mut EncAlloc) {
+    let r = catch_unwind(AssertUnwindSafe(|| {
+        let mut r = std::io::Cursor::new(input);
+        let mut w: Vec<u8> = Vec::new();
+        let mut ib = vec![0u8; ibuf.max(1)];
+        let mut ob = vec![0u8; obuf.max(1)];
+        let res = brotli::BrotliCompressCustomIoCustomDict(
+            &mut brotli::IoReaderWrapper(&mut r), &mut brotli::IoWriterWrapper(&mut w), &mut ib, &mut ob, params,
+            EncAlloc::default(), cb, dict, std::io::Error::new(std::io::ErrorKind::UnexpectedEof, "eof"));
+        match res { Ok(_) => Ok(w), Err(e) => Err(format!("error: {}", e)) }
+    }));
+    match r { Ok(x) => x, Err(e) => Err(format!("panic: {}", panic_msg(&e))) }
+}
+
+pub fn panic_msg(e: &Box<dyn std::any::Any + Send>) -> String {
+    if let Some(s) = e.downcast_ref::<&str>() { s.to_string() } else if let Some(s) = e.downcast_ref::<String>() { s.clone() } else { "?".to_string() }
+}
+
+pub fn book_of(s: &BrotliEncoderStateStruct<EncAlloc>) -> Book {
+    use alloc_no_stdlib::SliceWrapper;
+    let rb = &s.ringbuffer_;
+    let pos = rb.pos_ as usize;
+    let data = rb.data_mo.slice();
+    let mut tail = vec![];
+    let mut h = FNV_INIT;
+    let mut hd = FNV_INIT;
+    if !data.is_empty() {
+        let k = pos.min(64);
+        for p in (pos - k)..pos { tail.push(data[rb.buffer_index + (p & rb.mask_ as usize)]); }
+        for p in 0..pos { h = fnv_step(h, data[rb.buffer_index + (p & rb.mask_ as usize)] as u64); }
+        for b in data.iter() { hd = fnv_step(hd, *b as u64); }
+    }
+    Book {
+        input_pos: s.input_pos_, last_flush_pos: s.last_flush_pos_, last_processed_pos: s.last_processed_pos_,
+        prev_byte: s.prev_byte_, prev_byte2: s.prev_byte2_, catable: s.params.catable, appendable: s.params.appendable,
+        use_dictionary: s.params.use_dictionary, lgwin: s.params.lgwin, lgblock: s.params.lgblock, quality: s.params.quality,
+        rb_pos: rb.pos_, rb_mask: rb.mask_, rb_cur_size: rb.cur_size_, data_len: data.len(),
+        ring_tail: tail, ring_fnv: h, data_fnv: hd, recoder_pos: s.recoder_state.num_bytes_encoded,
+    }
+}
+
+/// book-keeping only (no compression): what `set_custom_dictionary(size, dict)` leaves behind
+pub fn book_only(dict: &[u8], params: &BrotliEncoderParams) -> Result<Book, String> {
+    let r = catch_unwind(AssertUnwindSafe(|| {
+        let mut s = BrotliEncoderStateStruct::new(EncAlloc::default());
+        s.params = params.clone();
+        s.set_custom_dictionary(dict.len(), dict);
+        let b = book_of(&s);
+        brotli::enc::encode::BrotliEncoderDestroyInstance(&mut s);
+        b
+    }));
+    r.map_err(|e| format!("panic: {}", panic_msg(&e)))
+}
+
+// ------------------------------------------------------------------------------------------------
+
+#[derive(Clone, Debug)]
+pub struct Case { pub lgwin: i32, pub q: i32, pub d: usize, pub seed: u64, pub magic: bool, pub kind: u32, pub api: u32, pub iseed: u64 }
+impl Case {
+    fn json(&self) -> String {
+        format!("{{\"lgwin\": {}, \"quality\": {}, \"d\": {}, \"dict_seed\": {}, \"magic\": {}, \"kind\": {}, \"api\": {}, \"input_seed\": {}}}",
+            self.lgwin, self.q, self.d, self.seed, self.magic, self.kind, self.api, self.iseed)
+    }
+    fn corpus_line(&self) -> String { format!("{} {} {} {} {} {} {} {}", self.lgwin, self.q, self.d, self.seed, self.magic as u8, self.kind, self.api, self.iseed) }
+    fn parse(l: &str) -> Option<Case> {
+        let f: Vec<u64> = l.split_whitespace().filter_map(|x| x.parse().ok()).collect();
+        if f.len() != 8 { return None; }
+        Some(Case { lgwin: f[0] as i32, q: f[1] as i32, d: f[2] as usize, seed: f[3], magic: f[4] != 0, kind: f[5] as u32, api: f[6] as u32, iseed: f[7] })
+    }
+}
+pub const KINDS: [&str; 5] = ["tail", "period", "text", "tiny", "long"];
+
+pub fn d_class(d: usize, lgwin: i32) -> String {
+    let w = 1usize << lgwin.clamp(10, 24);
+    if d <= 3 { format!("d{}", d) } else if d + 17 == w { "w-17".into() } else if d + 16 == w { "w-16".into() } else if d + 15 == w { "w-15".into() } else if d > w { ">w".into() } else if d + 16 > w { "w-15..w".into() } else { "mid".into() }
+}
+
+/// input of a case (a function of the case alone)
+pub fn make_input(c: &Case, dict: &[u8]) -> Vec<u8> {
+    let mut rng = Rng::new(c.iseed ^ 0x5eed_d1c7);
+    let d = dict.len();
+    let mut v: Vec<u8> = Vec::new();
+    let sub = |rng: &mut Rng, v: &mut Vec<u8>| { if d > 0 { let l = (rng.range(4, 60) as usize).min(d); let o = rng.below((d - l + 1) as u64) as usize; v.extend_from_slice(&dict[o..o + l]); } };
+    match c.kind {
+        0 => { // tail: the dictionary's last bytes, then a mixture
+            let t = d.min(rng.range(1, 48) as usize);
+            v.extend_from_slice(&dict[d - t..]);
+            let parts = rng.range(3, 24);
+            for _ in 0..parts {
+                match rng.below(4) {
+                    0 => { let o = rng.below(TEXT.len() as u64 - 40) as usize; let l = rng.range(8, 40) as usize; v.extend_from_slice(&TEXT[o..o + l]); }
+                    1 | 2 => sub(&mut rng, &mut v),
+                    _ => { for _ in 0..rng.range(1, 12) { v.push(rng.next() as u8); } }
+                }
+            }
+        }
+        1 => { // period: continue a short period of the dictionary tail (overlapping copy across the dictionary end)
+            let p = d.min(rng.range(1, 9) as usize).max(1);
+            let n = rng.range(20, 400) as usize;
+            for i in 0..n { v.push(if d > 0 { dict[d - p + (i % p)] } else { b'a' + (i % p) as u8 }); }
+            v.extend_from_slice(&TEXT[..rng.range(0, 80) as usize]);
+            sub(&mut rng, &mut v);
+        }
+        2 => { let o = rng.below(60) as usize; let l = rng.range(30, (TEXT.len() - o) as u64) as usize; v.extend_from_slice(&TEXT[o..o + l]); if rng.chance(1, 2) { sub(&mut rng, &mut v); v.extend_from_slice(&TEXT[..50]); } }
+        3 => { let n = rng.below(4) as usize; for i in 0..n { v.push(if d > i { dict[d - 1 - i] } else { rng.next() as u8 }); } }
+        _ => { // long: > ring buffer (q<=3: 2^(1+max(lgwin,14)), else 2^(1+max(lgwin,16..18)))
+            let target = if c.q < 4 { (1usize << (1 + c.lgwin.max(14))) + 5000 } else { (1usize << (1 + c.lgwin.max(16))) + 70000 };
+            while v.len() < target {
+                match rng.below(5) {
+                    0 => v.extend_from_slice(TEXT),
+                    1 | 2 => { for _ in 0..8 { sub(&mut rng, &mut v); } if d == 0 { v.extend_from_slice(&TEXT[..100]); } }
+                    3 => { let l = v.len(); if l > 100 { let o = rng.below((l - 64) as u64) as usize; let s: Vec<u8> = v[o..o + 64].to_vec(); v.extend_from_slice(&s); } else { v.extend_from_slice(TEXT); } }
+                    _ => { for _ in 0..rng.range(1, 300) { v.push(rng.next() as u8); } }
+                }
+            }
+        }
+    }
+    v
+}
+
+fn run_case(c: &Case, rep: &mut Report) {
+    let dict = gen_dict(c.seed, c.d);
+    let input = make_input(c, &dict);
+    let mut p = base_params(c.q, c.lgwin);
+    p.magic_number = c.magic;
+    let mut rng = Rng::new(c.iseed ^ 0xc4a2);
+    let enc: Result<Vec<u8>, String> = match c.api {
+        0 => encode_stream_x(&input, &dict, false, &p, &[1 << 20], 1 << 16, &mut |_, _, _, _| ()).map(|x| x.0),
+        1 => { let chunks: Vec<usize> = (0..5).map(|_| rng.range(1, 3000) as usize).collect(); let oc = rng.range(1, 5000) as usize; encode_stream_x(&input, &dict, true, &p, &chunks, oc, &mut |_, _, _, _| ()).map(|x| x.0) }
+        _ => encode_oneshot(&input, &dict, &p, rng.range(1, 70000) as usize, rng.range(1, 70000) as usize, &mut |_, _, _, _| ()),
+    };
+    rep.evaluations += 1;
+    let dcl = d_class(c.d, c.lgwin);
+    let qcl = if c.q < 2 { "q01" } else { "q2+" };
+    rep.count(&format!("d.{}", dcl));
+    rep.count(&format!("kind.{}", KINDS[c.kind as usize]));
+    rep.count(&format!("api.{}", c.api));
+    rep.count(&format!("lgwin.{}", c.lgwin));
+    rep.count(&format!("quality.{}", c.q));
+    if c.magic { rep.count("magic"); }
+    let unsanitised = c.lgwin < 10 || c.lgwin > 24;
+    let out = match enc {
+        Ok(o) => o,
+        Err(e) => {
+            let kind = if e.starts_with("panic") { "encode-panic" } else if e == "livelock" { "encode-livelock" } else { "encode-fail" };
+            if unsanitised { rep.count("extra.unsanitised_lgwin.encode_fail"); return; }
+            rep.violation(&format!("dict:{}:{}:{}", kind, dcl, qcl), &format!("encoder with a {}-byte dictionary: {}", c.d, e), c.json());
+            return;
+        }
+    };
+    let dr = decode_dict(&out, &dict, input.len() + (1 << 16));
+    if c.d >= 1 { rep.nontrivial += 1; }
+    let ok = matches!(&dr, DResult::Ok(v) if *v == input);
+    if ok {
+        rep.count("roundtrip.ok");
+        if c.d >= 1 && c.q >= 2 && input.len() > 8 {
+            // does the stream depend on the dictionary content? (decode with a zeroed dictionary of the same length)
+            let z = vec![0u8; c.d];
+            if !matches!(decode_dict(&out, &z, input.len() + (1 << 16)), DResult::Ok(v) if v == input) { rep.count("stream_depends_on_dict"); }
+        }
+        if input.len() > (1usize << c.lgwin.clamp(10, 24)) { rep.count("input_longer_than_window"); }
+        return;
+    }
+    if unsanitised { rep.count("extra.unsanitised_lgwin.mismatch"); return; }
+    let (kind, what) = match &dr {
+        DResult::Ok(v) => ("wrong-decode", format!("decoder given the same {}-byte dictionary returned {} bytes != input ({} bytes), first difference at {}", c.d, v.len(), input.len(), crate::dec::first_diff(v, &input))),
+        DResult::Error(v) => ("decode-error", format!("decoder given the same {}-byte dictionary failed after {} bytes", c.d, v.len())),
+        DResult::NeedsMoreInput(v) => ("decode-truncated", format!("decoder given the same {}-byte dictionary wants more input after {} bytes", c.d, v.len())),
+        DResult::TooBig => ("decode-toobig", "decoder output exceeds the input length".to_string()),
+    };
+    let sig = if c.d == 1 && c.q >= 2 { format!("dict:{}:len1", kind) } else { format!("dict:{}:{}:{}", kind, dcl, qcl) };
+    rep.violation(&sig, &what, c.json());
+    rep.sample(format!("{} {}", sig, c.corpus_line()));
+}
+
+fn d_grid(lgwin: i32, rng: &mut Rng) -> Vec<usize> {
+    let w = 1usize << lgwin;
+    vec![0, 1, 2, 3, rng.range(4, (w - 18) as u64) as usize, w - 17, w - 16, w - 15, w + 5, 2 * w + 3]
+}
+
+fn cases(thorough: bool, seed: u64) -> Vec<Case> {
+    let mut rng = Rng::new(seed ^ 0xd1c7_0001);
+    let mut cs = Vec::new();
+    // corpus first
+    if let Ok(rd) = std::fs::read_dir("/verif/corpus/dict") {
+        let mut files: Vec<_> = rd.filter_map(|e| e.ok()).map(|e| e.path()).collect();
+        files.sort();
+        for f in files { if let Ok(t) = std::fs::read_to_string(&f) { for l in t.lines() { if let Some(c) = Case::parse(l) { cs.push(c); } } } }
+    }
+    let dense: &[i32] = &[10, 11, 12, 13, 14, 16, 18];
+    for &lgwin in dense {
+        for q in 0..12 {
+            for magic in [false, true] {
+                for d in d_grid(lgwin, &mut rng) {
+                    let reps = if thorough { 8 } else { 2 };
+                    for _ in 0..reps {
+                        // kinds tail/period/text/tiny; `long` only sparsely (below)
+                        let kind = if d <= 3 { *rng.pick(&[2u32, 2, 2, 0, 1, 3]) } else { *rng.pick(&[0u32, 0, 0, 1, 1, 2, 3]) };
+                        cs.push(Case { lgwin, q, d, seed: rng.below(251), magic, kind, api: rng.below(3) as u32, iseed: rng.next() >> 16 });
+                    }
+                }
+            }
+        }
+    }
+    // the remaining windows 15,17,19: one quality sweep each at the boundary lengths
+    for &lgwin in &[15i32, 17, 19] {
+        for q in 0..12 { for d in [1usize, (1 << lgwin) - 16, (1 << lgwin) + 5] { cs.push(Case { lgwin, q, d, seed: rng.below(251), magic: rng.chance(1, 2), kind: rng.below(2) as u32, api: rng.below(3) as u32, iseed: rng.next() >> 16 }); } }
+    }
+    // big windows, sparse
+    for &lgwin in &[20i32, 21, 22, 23, 24] {
+        let w = 1usize << lgwin;
+        let qs: Vec<i32> = if thorough { (0..12).collect() } else { vec![0, 2, 5, 9, 11] };
+        for q in qs {
+            if !thorough && lgwin == 24 && q >= 10 { continue; }
+            let ds: Vec<usize> = if thorough || lgwin == 20 || lgwin == 22 { vec![1, w - 17, w - 16, w - 15, w + 5] } else { vec![*rng.pick(&[w - 17, w - 16, w - 15, w + 5])] };
+            for d in ds { cs.push(Case { lgwin, q, d, seed: rng.below(251), magic: rng.chance(1, 2), kind: rng.below(3) as u32, api: rng.below(3) as u32, iseed: rng.next() >> 16 }); }
+        }
+    }
+    // long inputs (longer than the ring buffer), small windows
+    for &lgwin in &[10i32, 12, 14, 16] {
+        let qs: Vec<i32> = if thorough { (0..12).collect() } else { vec![1, 2, 3, 4, 5, 7, 9, 10, 11] };
+        for q in qs {
+            if !thorough && q >= 10 && lgwin > 12 { continue; }
+            let w = 1usize << lgwin;
+            let d = *rng.pick(&[2usize, 3, w / 3, w - 17, w - 16, w + 5]);
+            cs.push(Case { lgwin, q, d, seed: rng.below(251), magic: rng.chance(1, 2), kind: 4, api: rng.below(3) as u32, iseed: rng.next() >> 16 });
+        }
+    }
+    // unsanitised window values (outside the property's quantifier; counted, never a violation)
+    for &lgwin in &[4i32, 5, 8, 9] { for q in [5, 11] { cs.push(Case { lgwin, q, d: 600, seed: 0, magic: false, kind: 0, api: 0, iseed: rng.next() >> 16 }); } }
+    cs
+}
+
+fn corr_lines(thorough: bool, seed: u64) -> Vec<(i32, i32, usize, u64)> {
+    let mut rng = Rng::new(seed ^ 0xb00c);
+    let mut v = Vec::new();
+    for lgwin in [10i32, 11, 12, 13, 14, 15, 16, 17, 18] {
+        for q in -1..13 {
+            for d in d_grid(lgwin, &mut rng) { v.push((lgwin, q, d, rng.below(251))); }
+            // around the block size (small first allocation vs full allocation of the ring buffer)
+            for lgb in [14usize, 16, 18] { let b = 1usize << lgb; for d in [b - 1, b, b + 1] { if q % 3 == 0 { v.push((lgwin, q, d, rng.below(251))); } } }
+        }
+    }
+    for lgwin in [0i32, 1, 3, 4, 5, 6, 8, 9, 25, 26, 30] { for q in [0, 2, 4, 9, 10, 11] { for d in [0usize, 1, 2, 15, 16, 17, 240, 241, 600, 1008, 1009, 3000] { v.push((lgwin, q, d, rng.below(251))); } } }
+    for lgwin in [19i32, 20, 21, 22, 23, 24] {
+        let w = 1usize << lgwin;
+        for q in [0, 1, 2, 3, 4, 9, 11] {
+            let ds: Vec<usize> = if thorough || lgwin <= 20 { vec![2, w - 17, w - 16, w - 15, w + 5] } else { vec![*rng.pick(&[w - 17, w - 16, w - 15, w + 5])] };
+            for d in ds { v.push((lgwin, q, d, rng.below(251))); }
+        }
+    }
+    v
+}
+
+fn probe() {
+    let mut text = Vec::new();
+    for _ in 0..4 { text.extend_from_slice(b"The quick brown fox jumps over the lazy dog. Compression of information and international development. "); }
+    for q in [2, 5, 9, 11] {
+        for d in [0usize, 1, 2, 3] {
+            let dict: Vec<u8> = (0..d).map(|i| b'a' + i as u8).collect();
+            let p = base_params(q, 22);
+            match encode_stream(&text, &dict, &p, 1 << 16, 1 << 16, &mut |_, _, _, _| ()) {
+                Ok((out, book)) => {
+                    let dr = decode_dict(&out, &dict, text.len() + 1000);
+                    let verdict = match &dr { DResult::Ok(v) if *v == text => "roundtrip-ok".to_string(), DResult::Ok(v) => format!("WRONG len {} first diff {}", v.len(), crate::dec::first_diff(v, &text)), o => format!("{:?}", o).chars().take(60).collect() };
+                    println!("q{} d{} -> {} bytes; book {:?}; {}", q, d, out.len(), (book.input_pos, book.last_flush_pos, book.prev_byte, book.prev_byte2, book.catable, book.use_dictionary), verdict);
+                }
+                Err(e) => println!("q{} d{} -> {}", q, d, e),
+            }
+        }
+    }
+    for lgwin in [4, 5, 8, 9] {
+        for q in [5, 9, 11] {
+            let dict = gen_dict(0, 600);
+            let mut inp = dict[300..].to_vec(); inp.extend_from_slice(&text);
+            let p = base_params(q, lgwin);
+            match encode_stream(&inp, &dict, &p, 1 << 16, 1 << 16, &mut |_, _, _, _| ()) {
+                Ok((out, book)) => {
+                    let dr = decode_dict(&out, &dict, inp.len() + 1000);
+                    let verdict = match &dr { DResult::Ok(v) if *v == inp => "roundtrip-ok".to_string(), DResult::Ok(v) => format!("WRONG len {} first diff {}", v.len(), crate::dec::first_diff(v, &inp)), o => format!("{:?}", o).chars().take(60).collect() };
+                    println!("lgwin{} q{} -> {} bytes; book {:?}; {}", lgwin, q, out.len(), (book.input_pos, book.last_flush_pos, book.lgwin), verdict);
+                }
+                Err(e) => println!("lgwin{} q{} -> {}", lgwin, q, e),
+            }
+        }
+    }
+    for q in [2, 5, 9, 11] {
+        let dict: Vec<u8> = text[..150].to_vec();
+        let mut p = base_params(q, 22);
+        p.log_meta_block = true;
+        let mut ncb = 0;
+        let r = encode_stream(&text, &dict, &p, 1 << 16, 1 << 16, &mut |_, cmds, _, _| { ncb += cmds.len(); });
+        match r { Ok((out, _)) => println!("D12 q{}: ok {} bytes, {} IR commands", q, out.len(), ncb), Err(e) => println!("D12 q{}: {}", q, e) }
+    }
+}
+
 pub fn run_cmd(args: &Args) {
-    let corr = Corr::new(&args.out);
-    let rep = Report::default();
+    if args.rest.first().map(|s| s.as_str()) == Some("probe") { probe(); return; }
+    let thorough = args.tier == "thorough";
+    let mut corr = Corr::new(&args.out);
+    let mut rep = Report::default();
+    // quiet panics of the code under test (they are observations)
+    std::panic::set_hook(Box::new(|_| {}));
+
+    // ---- correspondence: book-keeping after set_custom_dictionary
+    let cl = std::sync::Arc::new(corr_lines(thorough, args.seed));
+    let cl2 = cl.clone();
+    let lines = par_tasks(cl.len(), move |i| {
+        let (lgwin, q, d, seed) = cl2[i];
+        let dict = gen_dict(seed, d);
+        let p = base_params(q, lgwin);
+        let ans = match book_only(&dict, &p) { Ok(b) => b.line(), Err(_) => "panic".to_string() };
+        (format!("dict book {} {} {} {}", lgwin, q, d, seed), ans)
+    });
+    for (o, a) in lines { corr.case(&o, &a); }
+    rep.add("corr.book_lines", cl.len() as u64);
+
+    // ---- search: round trip with the same dictionary
+    let cs = std::sync::Arc::new(cases(thorough, args.seed));
+    let cs2 = cs.clone();
+    let reps = par_tasks(cs.len(), move |i| { let mut r = Report::default(); run_case(&cs2[i], &mut r); r });
+    for r in reps { rep.merge(r); }
+    let _ = std::panic::take_hook();
     corr.finish();
     rep.write(&args.out);
 }
